@@ -6,7 +6,7 @@ from check import Case
 from . import util, latfam, c16
 
 TARGETS = ['Properties/C15.vo', 'Run/ObsC15.vo']
-THEOREMS = []
+THEOREMS = util.theorems('C15')
 RUN_MODULE = 'Run.ObsC15'
 SHARD_SIZE = 60
 RULE = ('base contexts: EXH(8 quick / 10 thorough) sampled + FAM + RND; variants built through the Definition API: 2 (quick) / 6 (thorough) '
